@@ -215,6 +215,10 @@ impl Fix {
             "public_key" => self.pk.clone(),
             "secret_key" => self.sk.clone(),
             "blind_factor" => self.blind.clone(),
+            "message_scalar" => {
+                let m = self.msgs[0].clone();
+                lib::guard(None, move || Ok(zkryptium::utils::message::bbsplus_message::BBSplusMessage::map_message_to_scalar_as_hash::<CS>(&m, b"BBS_BLS12381G1_XMD:SHA-256_SSWU_RO_H2G_HM2S_")?.to_bytes_be().to_vec())).ok().unwrap()
+            }
             "signature" => lib::sign(Suite::Sha, &self.sk, &self.pk, &Some(b"h".to_vec()), &Some(self.msgs[..1].to_vec()), None).ok().unwrap(),
             "proof" => {
                 let m = Some(self.msgs[..n].to_vec());
@@ -271,6 +275,13 @@ fn decode_with_lib(codec: &str, b: &[u8], fx: &Fix) -> Vec<(String, Out<Vec<u8>>
         }
         "zkpok" => vec![("BBSplusZKPoK::from_bytes".into(), lib::guard(None, || Ok(BBSplusZKPoK::from_bytes(&b)?.to_bytes())))],
         "secret_key" => vec![("BBSplusSecretKey::from_bytes".into(), lib::guard(None, || Ok(BBSplusSecretKey::from_bytes(&b)?.to_bytes().to_vec())))],
+        "message_scalar" => {
+            if b.len() != 32 {
+                return vec![];
+            }
+            let arr: [u8; 32] = b.clone().try_into().unwrap();
+            vec![("BBSplusMessage::from_bytes_be".into(), lib::guard(None, || Ok(zkryptium::utils::message::bbsplus_message::BBSplusMessage::from_bytes_be(&arr)?.to_bytes_be().to_vec())))]
+        }
         "blind_factor" => {
             if b.len() != 32 {
                 return vec![]; // the API takes [u8; 32]: other lengths cannot be expressed
@@ -461,7 +472,7 @@ pub fn run(r: &Ref, cases: &[Value], seed: u64, flip_stride: usize) -> CReport {
     }
     // C09 (b): single-bit flips of every honest encoding: whatever still decodes re-encodes to itself
     if flip_stride > 0 {
-        for (codec, n) in [("public_key", 0usize), ("pk_coords", 0), ("zkpok", 1), ("secret_key", 0), ("blind_factor", 0), ("signature", 0), ("proof", 0), ("proof", 2), ("commitment", 0), ("commitment", 2)] {
+        for (codec, n) in [("public_key", 0usize), ("pk_coords", 0), ("zkpok", 1), ("message_scalar", 0), ("secret_key", 0), ("blind_factor", 0), ("signature", 0), ("proof", 0), ("proof", 2), ("commitment", 0), ("commitment", 2)] {
             let h = fx.honest(codec, n);
             let mut k = (seed as usize) % flip_stride;
             for byte in 0..h.len() {
